@@ -2035,6 +2035,7 @@ func (a *Act) builtin(name string, args []Value) Value {
 		case MapV:
 			n := BV(64, 0)
 			for _, al := range x.alts() {
+				a.recordMap(al.obj, false) // len(m) reads the map header
 				for _, e := range a.st.heap[al.obj].v.(MapData).entries {
 					n = BvBin("bvadd", n, Ite(And(e.present, al.g), BV(64, 1), BV(64, 0)))
 				}
